@@ -286,7 +286,7 @@ func c10Check(c *Ctx, m map[string]interface{}, key string, val interface{}, asS
 			return true
 		}
 		// (3) sub-keys
-		if len(conds) > 0 && !refSubKeys(ch.container, conds, false) && !refSubKeys(ch.container, conds, true) {
+		if len(conds) > 0 && !refSubKeys(ch.container, conds, true) {
 			c.Violate("Map.UpdateValuesForPath", "subkeys", shape, cas, choices, detail("changed "+ch.loc+" although its node does not satisfy the sub-keys"))
 			return true
 		}
@@ -333,7 +333,7 @@ func keysOf(m map[string]bool) []string {
 func c10Run(c *Ctx) {
 	mustBeDefault(c)
 	c.S.Rule = "cases = (Map, new value, path, sub-keys): every Map template with <= N nodes over keys {a,ab,k} (lists, list-in-list, empty containers) x new value {k|ab : \"NEW\" | {\"nk\":\"NEW\"}} given as map and as 'key:value[:type]' string x every path of <= 3 steps over {a,b,k,z,*} (both addressing forms) x sub-key sets {none, presence, negated presence, value, typed}; oracle is relational on a deep copy taken before the call: frame, location (against reference addressed set), sub-keys, count, count-copies. Each case under ascending and descending map order; cases with wildcards additionally under every single order deviation (E-choice bound 1) for the smaller Maps. Updated Maps are retained (last 4) and re-checked deeply after every later call. non-trivial = count > 0."
-	c.S.Assumptions = []string{"insertion of key k into an addressed map that lacks it is accepted (and counted iff it happens)", "addressed set computed by the reference walker (one-level reading; both readings accepted for list-in-list Maps)", "negated sub-key on absent key: both readings accepted"}
+	c.S.Assumptions = []string{"insertion of key k into an addressed map that lacks it is accepted (and counted iff it happens)", "addressed set computed by the reference walker (one-level reading; both readings accepted for list-in-list Maps)"}
 	n1, n2, ech := 5, 5, 4
 	if c.Thorough {
 		n1, n2, ech = 6, 6, 5
